@@ -4,7 +4,7 @@
 From Coq Require Import List ZArith Bool.
 From WebpGen Require Tables Consts.
 From Webp Require Import Vp8.Vp8Bool Vp8.Vp8Tables Vp8.Vp8Syntax Vp8.Vp8Kernels Vp8.Vp8KernelProofs Vp8.Vp8Upsample
-  Vp8.Vp8BoolAbs Vp8.Vp8BoolEnc Vp8.Vp8SyntaxRT Vp8.Vp8TokenRT Vp8.Vp8ModeRT Vp8.Vp8Recon Vp8.Vp8Filter Vp8.Vp8Spec Vp8.Vp8FrameRT Vp8.Vp8RowOrder Vp8.Vp8GoReader Vp8.Vp8InlineCoeffs Vp8.Vp8InlineTree Vp8.Vp8FlatCache.
+  Vp8.Vp8BoolAbs Vp8.Vp8BoolEnc Vp8.Vp8SyntaxRT Vp8.Vp8TokenRT Vp8.Vp8ModeRT Vp8.Vp8Recon Vp8.Vp8Filter Vp8.Vp8Spec Vp8.Vp8FrameRT Vp8.Vp8RowOrder Vp8.Vp8GoReader Vp8.Vp8InlineCoeffs Vp8.Vp8InlineTree Vp8.Vp8FlatCache Vp8.Vp8TokenBuf.
 From Webp Require Riff.PrefixBitio.
 From Webp Require Import Base.Res.
 Import ListNotations.
@@ -428,3 +428,27 @@ Theorem C04_mk_edges_y_cells : forall above left al ar : option mbpix,
                        end).
 Proof. exact mk_edges_y_cells. Qed.
 Print Assumptions C04_mk_edges_y_cells.
+
+(** ** The encoder's token buffer (encode_token.go): record + replay = direct emission.  Tokens are
+    recorded into pages of P entries (RecordToken adds a page when the current one is full), each
+    non-skipped macroblock sets its start mark (MarkMBStart; skipped ones keep -1), and
+    EmitTokensPartitioned fills the missing marks backwards from the token count, then walks each
+    selected macroblock's range in page-aligned chunks (tok / P, tok % P, min(P, end - page*P)).
+    For every page size, every writer and every recording (macroblocks in rows of mbW, skipped ones
+    anywhere, empty ones included), replaying partition i - the macroblocks with
+    (mbIdx / mbW) & (2^lg - 1) = i - puts exactly the frame model's symbols of partition i
+    (Vp8FrameRT.part_syms: rows r with r mod 2^lg = i) in order; EmitTokens puts all of them. *)
+Theorem C04_token_buffer_partition_eq : forall W (put : W -> bool * Z -> W) (P : nat), (0 < P)%nat ->
+  forall (w : nat) (lg i : Z) (rows : list (list (option (list (bool * Z))))) (bw : W),
+  (0 < w)%nat -> 0 <= lg -> Forall (fun r => length r = w) rows ->
+  emit_part (bool * Z) W put P (length (concat rows)) (part_sel (Z.of_nat w) (2 ^ lg) i)
+            (session (bool * Z) P (concat rows)) bw =
+  puts (bool * Z) W put (part_syms (2 ^ lg) i 0 (map (fun r => concat (map (mb_toks (bool * Z)) r)) rows)) bw.
+Proof. exact token_buffer_partition_eq. Qed.
+Print Assumptions C04_token_buffer_partition_eq.
+
+Theorem C04_token_buffer_emit_all : forall tok W (put : W -> tok -> W) (P : nat), (0 < P)%nat ->
+  forall (os : list (option (list tok))) (w : W),
+  emit_all tok W put (session tok P os) w = puts tok W put (concat (map (mb_toks tok) os)) w.
+Proof. exact emit_all_session. Qed.
+Print Assumptions C04_token_buffer_emit_all.
